@@ -724,6 +724,8 @@ def check(ctx):
     cfgs = ["F0", "F1", "F1N"] if ctx.tier == "quick" else ["F0", "F1", "F1N", "F2", "F0N", "F2N"]
     ctx.need(*cfgs)
     for cfg in cfgs:
+        from ..rules import check_no_generic_zeroed as _cz
+        _cz(ctx, cfg, "C03.Z0")
         verify_models(ctx, cfg)
         check_const_transmute(ctx, cfg)
         # tiling instances (shared with C09)
